@@ -12,7 +12,7 @@ pub enum ElemKind {
     U64,
     TrInline,
     TrHeap,
-    /// u64 keys, 256-byte values
+    /// u64 keys, 512-byte values
     Big,
 }
 
@@ -22,7 +22,7 @@ impl ElemKind {
             ElemKind::U64 => "u64",
             ElemKind::TrInline => "tracked-inline",
             ElemKind::TrHeap => "tracked-heap",
-            ElemKind::Big => "u64-to-256B",
+            ElemKind::Big => "u64-to-512B",
         }
     }
     pub fn parse(s: &str) -> Option<ElemKind> {
@@ -30,7 +30,7 @@ impl ElemKind {
             "u64" => ElemKind::U64,
             "tracked-inline" => ElemKind::TrInline,
             "tracked-heap" => ElemKind::TrHeap,
-            "u64-to-256B" => ElemKind::Big,
+            "u64-to-512B" => ElemKind::Big,
             _ => return None,
         })
     }
